@@ -41,13 +41,42 @@ MANIFEST_ENTRY = {
                   'generated.',
 }
 
-REPS = ['list', 'u8', 'i8', 'i32', 'i64', 'u64', 'csr']
+REPS = ['list', 'u8', 'i8', 'i32', 'i64', 'u64', 'csr', 'csrz', 'csru']
 DT = {'u8': np.uint8, 'i8': np.int8, 'i32': np.int32, 'i64': np.int64,
       'u64': np.uint64}
 
 
+def csr_with_stored_zeros(M):
+    """The csr a library-style mod-2 sum leaves behind: (M ^ N) + N with
+    `data %= 2` stores an explicit 0 wherever two ones cancelled."""
+    i, j = np.indices(M.shape)
+    N = ((i * 7 + j * 3) % 4 == 0).astype(np.uint8)
+    out = csr_matrix((M ^ N).astype(np.uint8)) + csr_matrix(N)
+    out.data %= 2
+    assert np.array_equal(out.toarray(), M)
+    return out
+
+
+def csr_unsorted(M):
+    """Same matrix, column indices of every row stored in reverse order (what
+    a sparse matrix product returns)."""
+    c = csr_matrix(M.astype(np.uint8))
+    ind = c.indices.copy()
+    dat = c.data.copy()
+    for r in range(c.shape[0]):
+        lo, hi = c.indptr[r], c.indptr[r + 1]
+        ind[lo:hi] = ind[lo:hi][::-1]
+        dat[lo:hi] = dat[lo:hi][::-1]
+    out = csr_matrix((dat, ind, c.indptr.copy()), shape=c.shape)
+    return out
+
+
 def to_rep(M, rep, shape):
     """M: 2-D uint8 array (rows = Paulis). shape: '1d' | 'row' | '2d'."""
+    if rep == 'csrz':
+        return csr_with_stored_zeros(np.asarray(M, dtype=np.uint8))
+    if rep == 'csru':
+        return csr_unsorted(np.asarray(M, dtype=np.uint8))
     if shape == '1d':
         assert M.shape[0] == 1
         v = M[0]
@@ -109,11 +138,11 @@ def exhaustive_case(case, fail):
         one = P[i:i + 1]
         # 2-D x 1-D -> length = rows
         got = bs_prod(to_rep(P, ra, '2d'), to_rep(one, rb, '1d'))
-        if rb != 'csr' and np.asarray(got).shape != (len(P),):
+        if not rb.startswith('csr') and np.asarray(got).shape != (len(P),):
             fail('prod_shape_2d_1d', f'n={n} {ra}[2d] x {rb}[1d]: shape {np.asarray(got).shape}')
         compare(got, want[:, i], fail, f'n={n} {ra}[2d] x {rb}[1d] b={i}')
         got = bs_prod(to_rep(one, ra, '1d'), to_rep(P, rb, '2d'))
-        if ra != 'csr' and np.asarray(got).shape != (len(P),):
+        if not ra.startswith('csr') and np.asarray(got).shape != (len(P),):
             fail('prod_shape_1d_2d', f'n={n} {ra}[1d] x {rb}[2d]: shape {np.asarray(got).shape}')
         compare(got, want[i, :], fail, f'n={n} {ra}[1d] x {rb}[2d] a={i}')
         compare(bs_prod(to_rep(one, ra, 'row'), to_rep(P, rb, '2d')), want[i, :], fail,
@@ -123,7 +152,8 @@ def exhaustive_case(case, fail):
             break
     # single x single, all ordered pairs
     if n <= 2 or (ra, rb) in (('u8', 'u8'), ('list', 'list'), ('csr', 'u8'), ('u8', 'csr'),
-                              ('csr', 'csr'), ('i64', 'u64')):
+                              ('csr', 'csr'), ('i64', 'u64'), ('csrz', 'csrz'), ('csrz', 'csru'),
+                              ('csru', 'csr'), ('u8', 'csrz')):
         for i, j in itertools.product(range(len(P)), repeat=2):
             got = bs_prod(to_rep(P[i:i + 1], ra, '1d'), to_rep(P[j:j + 1], rb, '1d'))
             if np.asarray(got).size != 1 or int(np.asarray(got).ravel()[0]) != want[i, j]:
@@ -209,7 +239,22 @@ def convert_case(case, fail):
             fail('bsf_to_pauli_dense_2d', s)
         if want.any() and bpauli.bsf_to_pauli(csr_matrix(w8.reshape(1, -1))) != [s]:
             fail('bsf_to_pauli_sparse', s)
+        # a sparse row is the vector it stores, whatever the order of its
+        # stored entries (a sparse product returns unsorted column indices)
         wt = sum(1 for c in s if c != 'I')
+        if want.any():
+            un = csr_unsorted(w8.reshape(1, -1))
+            if bpauli.bsf_to_pauli(un) != [s]:
+                fail('bsf_to_pauli_sparse_unsorted', s)
+            if int(bpauli.bsf_wt(un)) != wt:
+                fail('bsf_wt_sparse_unsorted', s)
+            mask = (np.arange(2 * n) * 2654435761 + case['rseed']) % 3 == 0
+            parts = csr_matrix(np.vstack([w8 * mask, w8 * ~mask]).astype(np.uint8))
+            prod = csr_matrix(np.ones((1, 2), dtype=np.uint8)) @ parts
+            if bpauli.bsf_to_pauli(prod) != [s]:
+                fail('bsf_to_pauli_sparse_product', s)
+            if int(bpauli.bsf_wt(prod)) != wt:
+                fail('bsf_wt_sparse_product', s)
         if int(bpauli.bsf_wt(w8)) != wt:
             fail('bsf_wt_dense', f'{s}: {bpauli.bsf_wt(w8)} != {wt}')
         if int(bpauli.bsf_wt(csr_matrix(w8.reshape(1, -1)))) != wt:
@@ -365,7 +410,9 @@ def eval_case(case):
     elif kind == 'stack':
         evals, nt, ov = stack_case(case, fail)
         labels.append('overlap>=256' if ov >= 256 else 'overlap<256')
-        labels.append('sparse-arg' if 'csr' in (case['rep_a'], case['rep_b']) else 'dense-args')
+        labels.append('sparse-arg' if any(r.startswith('csr') for r in (case['rep_a'], case['rep_b'])) else 'dense-args')
+        if 'csrz' in (case['rep_a'], case['rep_b']):
+            labels.append('csr-with-stored-zeros')
     elif kind == 'convert':
         evals, nt = convert_case(case, fail)
     elif kind == 'raw':
@@ -417,7 +464,7 @@ def run(ctx):
         exh += [{'kind': 'exh', 'n': 3, 'rep_a': a, 'rep_b': b}
                 for a, b in [('u8', 'u8'), ('list', 'csr'), ('csr', 'csr'),
                              ('i8', 'u64'), ('i64', 'i32'), ('csr', 'u8'),
-                             ('u64', 'list')]]
+                             ('u64', 'list'), ('csrz', 'csrz'), ('csru', 'csrz')]]
     ctx.exhaustive = True
     ctx.run_cases(exh, chunk=1)
     ctx.run_hypothesis('stack_cases', 3000 if quick else 300000)
